@@ -169,8 +169,21 @@ def make_handlers():
     from chuk_mcp.server.server import MCPServer
     from chuk_mcp.protocol.types.info import ServerInfo
     from chuk_mcp.protocol.types.capabilities import ServerCapabilities
+    from chuk_mcp.protocol.types import capabilities as C
+    full = {}
+    for name, cls in (("logging", "LoggingCapability"), ("prompts", "PromptsCapability"), ("resources", "ResourcesCapability"),
+                      ("tools", "ToolsCapability"), ("completion", "CompletionCapability")):
+        if hasattr(C, cls):
+            try:
+                full[name] = getattr(C, cls)()
+            except Exception:                       # noqa: BLE001
+                pass
+    # what the server ADVERTISES has no bearing on which version it answers: a handler with every capability, one with none
     return [ProtocolHandler(ServerInfo(name="bare", version="1"), ServerCapabilities()),
-            MCPServer("wrapped", "2.0").protocol_handler]
+            MCPServer("wrapped", "2.0").protocol_handler,
+            ProtocolHandler(ServerInfo(name="full", version="1"), ServerCapabilities(experimental={"x": {"y": 1}}, **full)),
+            ProtocolHandler(ServerInfo(name="completion-only", version="1"),
+                            ServerCapabilities(**({"completion": full["completion"]} if "completion" in full else {})))]
 
 
 def observe_response(handler, resp, sid):
@@ -193,7 +206,7 @@ def run_server(reqs):
     async def main():
         out = []
         for i, r in enumerate(reqs):
-            h = handlers[i % 2]
+            h = handlers[i % len(handlers)]
             try:
                 msg = parse_message(request_dict(r, i))
                 resp, sid = await h.handle_message(msg)
@@ -251,7 +264,7 @@ def check_histories(ctx, model, spec, supported):
     async def main():
         out = []
         for hi, hist in enumerate(hists):
-            h = make_handlers()[hi % 2]
+            h = make_handlers()[hi % 4]
             sid, steps, kept = None, [], []
             for i, r in enumerate(hist):
                 try:
@@ -341,6 +354,70 @@ async def run_handshake(sup, pref, handler, wire):
     return log
 
 
+async def run_retry(sup, pref1, pref2, handler, slow, t1):
+    """A slow server: the first send_initialize on the connection gives up after t1 s; the caller tries again ON THE SAME STREAMS,
+    preferring another version of its list; the server then answers both requests, in order, `slow` s after each arrived.  What
+    counts is the outcome of the SECOND call against the session the server has in force (the last one it created)."""
+    from chuk_mcp.protocol.messages.initialize.send_messages import send_initialize
+    c2s_s, c2s_r = anyio.create_memory_object_stream(64)
+    s2c_s, s2c_r = anyio.create_memory_object_stream(64)
+    log = {"first": None, "outcome": None, "session": ["none"], "answers": []}
+
+    async def pump():
+        async def answer(msg):
+            await anyio.sleep(slow)
+            resp, sid = await handler.handle_message(msg)
+            if N.describe_written(msg)[0] == "initialize":
+                a, s_ = observe_response(handler, resp, sid)
+                log["answers"].append(a)
+                log["session"] = s_
+            if resp is not None:
+                await s2c_s.send(resp)
+        async with anyio.create_task_group() as tg2:
+            async for msg in c2s_r:
+                tg2.start_soon(answer, msg)
+
+    async with anyio.create_task_group() as tg:
+        tg.start_soon(pump)
+        for which, pref, tmo in (("first", pref1, t1), ("outcome", pref2, 5.0)):
+            try:
+                r = await send_initialize(s2c_r, c2s_s, timeout=tmo, supported_versions=list(sup), preferred_version=pref)
+                pv = getattr(r, "protocolVersion", None)
+                log[which] = ["ok", pv] if isinstance(pv, str) else ["ok-nonstr", repr(pv)]
+            except Exception as e:                                  # noqa: BLE001
+                log[which] = N.classify_exception(e)
+        await anyio.sleep(slow + 0.5)
+        tg.cancel_scope.cancel()
+    for st in (c2s_s, c2s_r, s2c_s, s2c_r):
+        st.close()
+    return log
+
+
+def check_retry(ctx, spec, supported):
+    """the handshake is RETRIED on the same connection after a first attempt that timed out"""
+    import itertools
+    handlers = make_handlers()
+    pairs = [(a, b) for a, b in itertools.permutations(supported, 2)]
+    k = 0
+    for (a, b) in pairs:
+        for slow, t1 in ((0.5, 0.3), (1.0, 0.3)):
+            h = handlers[k % len(handlers)]
+            k += 1
+            lg = vrun(run_retry, [a, b], a, b, h, slow, t1)
+            case = {"retry_on_the_same_connection": True, "supported": [a, b], "first_preferred": a, "second_preferred": b,
+                    "server_delay": slow, "first_timeout": t1}
+            ctx.case(case, nontrivial=True)
+            ctx.count("retry:first-" + str(lg["first"][0]))
+            o = lg["outcome"]
+            s_out = f"(0 {sx(o[1])})" if o[0] == "ok" else ("(1)" if o[0] == "mismatch" else "(2)")
+            ok = spec.run([call(41, sx([a, b]), sx(supported), s_out, enc_value(lg["session"]))])[0]
+            ctx.spec_total += 1
+            if not ok:
+                ctx.spec_violation("handshake-neither-agreed-nor-mismatch:retry-after-timeout", case,
+                                   f"first attempt {lg['first']}, second attempt {o}; the server answered {lg['answers']} and the session "
+                                   f"in force records {lg['session']}")
+
+
 def check_handshake(ctx, model, spec, supported):
     cfgs = c03.configs()
     handlers = make_handlers()
@@ -348,7 +425,7 @@ def check_handshake(ctx, model, spec, supported):
     async def main():
         out = []
         for i, (sup, pref) in enumerate(cfgs):
-            out.append(await run_handshake(sup, pref, handlers[i % 2], wire=(i // 2) % 2 == 0))
+            out.append(await run_handshake(sup, pref, handlers[i % len(handlers)], wire=(i // 2) % 2 == 0))
         return out
     logs = vrun(main)
     enc_sup = lambda sup: "()" if sup is None else "(" + sx(list(sup)) + ")"  # noqa: E731
@@ -390,6 +467,7 @@ def explore(ctx, model, spec):
     check_server(ctx, model, spec, supported)
     check_histories(ctx, model, spec, supported)
     check_handshake(ctx, model, spec, supported)
+    check_retry(ctx, spec, supported)
     ctx.extra["server_supported"] = supported
     ctx.extra["full_grid_1900_2099"] = bool(ctx.thorough or ctx.escalated)
     ctx.exhaustive = True
@@ -432,15 +510,21 @@ def replay(ctx, data):
     supported = list(SUPPORTED_VERSIONS)
     spec = lib.Driver("C04Spec")
     case = data.get("case", {})
+    if case.get("retry_on_the_same_connection"):
+        check_retry(ctx, spec, supported)
+        for f in ctx.spec_fail:
+            print("REPRODUCED", f["class"], f["detail"][:300])
+        return 1 if ctx.spec_fail else 0
     if case.get("handshake"):
-        h = make_handlers()[0]
-        lg = vrun(run_handshake, case["supported"], case["preferred"], h, True)
-        o = lg["outcome"]
-        s_out = f"(0 {sx(o[1])})" if o[0] == "ok" else ("(1)" if o[0] == "mismatch" else "(2)")
-        eff = supported if case["supported"] is None else list(case["supported"])
-        ok = spec.run([call(41, sx(eff), sx(supported), s_out, enc_value(lg["session"]))])[0]
-        print("case:", case, "\nobserved:", lg)
-        bad = (not ok) or lg["initialized"] != (1 if o[0] == "ok" else 0)
+        bad = False
+        for hi, h in enumerate(make_handlers()):        # the case does not say which of the handler configurations it ran on
+            lg = vrun(run_handshake, case["supported"], case["preferred"], h, True)
+            o = lg["outcome"]
+            s_out = f"(0 {sx(o[1])})" if o[0] == "ok" else ("(1)" if o[0] == "mismatch" else "(2)")
+            eff = supported if case["supported"] is None else list(case["supported"])
+            ok = spec.run([call(41, sx(eff), sx(supported), s_out, enc_value(lg["session"]))])[0]
+            print("handler", hi, "case:", case, "\nobserved:", lg)
+            bad = bad or (not ok) or lg["initialized"] != (1 if o[0] == "ok" else 0)
         if bad:
             print("REPRODUCED", data.get("class"))
         return 1 if bad else 0
@@ -448,7 +532,12 @@ def replay(ctx, data):
         from chuk_mcp.protocol.messages.json_rpc_message import parse_message
 
         async def main():
-            h = make_handlers()[0]
+            bad = False
+            for h in make_handlers():
+                bad = (await one(h)) or bad
+            return bad
+
+        async def one(h):
             sid, bad, kept = None, False, []
             for i, r in enumerate(case["history"]):
                 resp, new_sid = await h.handle_message(parse_message(request_dict(r, 2 * i + 1)), sid)
@@ -471,9 +560,11 @@ def replay(ctx, data):
     if "req" not in case:
         print("nothing to replay in", data.get("kind"))
         return 0
-    (a, s), = run_server([case])
-    ok, clause = spec.run([call(40, sx(supported), enc_requested(case), enc_value(a) if a[0] != "raised" else "()", enc_value(s))])[0]
-    print("case:", case, "\nobserved: answered", a, "session", s)
-    if not ok:
-        print("REPRODUCED", data.get("class"), "(" + SERVER_CLAUSES.get(clause, "?") + ")")
-    return 0 if ok else 1
+    rc = 0
+    for (a, s) in run_server([case] * 4):               # once on each handler configuration
+        ok, clause = spec.run([call(40, sx(supported), enc_requested(case), enc_value(a) if a[0] != "raised" else "()", enc_value(s))])[0]
+        print("case:", case, "\nobserved: answered", a, "session", s)
+        if not ok:
+            print("REPRODUCED", data.get("class"), "(" + SERVER_CLAUSES.get(clause, "?") + ")")
+            rc = 1
+    return rc
